@@ -18,7 +18,7 @@ def sname(d):
 
 
 def queries(tier):
-    S = [shape(0, 0, 0), shape(0, 0, 1, 1, 3, 2, 1), shape(0, 0, 2, 2, 1, 0, 0), shape(1, 1, 1, 1, 2, 1, 0), shape(1, 2, 0)]
+    S = [shape(0, 0, 0), shape(0, 0, 1, 1, 0, 1, 0), shape(0, 0, 1, 1, 3, 2, 1), shape(0, 0, 2, 2, 1, 0, 0), shape(1, 1, 1, 1, 2, 1, 0), shape(1, 2, 0)]
     if tier == "thorough":
         S += [shape(0, 0, 2, 1, f, 1, 1) for f in range(4)] + [shape(1, 2, 2, 2, 3, 2, 1), shape(0, 0, 1, 2, 0, 2, 0), shape(1, 1, 1, 0, 0, 0, 1)]
     qs = []
